@@ -2,9 +2,10 @@
 (* Code -> spec binding for C04.  Every record is one call of a real FormulaGrader / NumericalGrader / MatrixGrader.
 
    kind "verdict": scripted sampling sets; the record carries the tolerance, samples, failable_evals, credit, the
-       sampled values, the student form with its per-sample parameters, and what the grader returned
+       author's answer (the variable itself or a constant), the sampled values, the student form with its per-sample
+       parameters, and what the grader returned
        (obs = "accept": grade = the answer's credit, "reject": grade 0, anything else: neither).
-       Accepted iff obs is in Tolerance!JudgeForm(...).allowed.
+       Accepted iff obs is in Tolerance!JudgeAns(...).allowed.
    kind "rewrite": random sampling (values unknown); the record carries the answer tree, the student's tree, a
        deviation wrapper and the observation.  The spec checks that the two trees are equivalent (exact evaluation
        on a grid), that the answer is strictly positive on positive samples (so that a relative deviation is the
@@ -20,8 +21,8 @@ VARIABLE l
 AllowedName(a) == IF a = {"accept"} THEN "allowed-accept" ELSE IF a = {"reject"} THEN "allowed-reject" ELSE "allowed-both"
 
 VerdictClause(r) ==
-  IF ~(\A i \in 1..r.n : Defined(r.form, r.xs[i], r.par[i])) THEN "bad-undefined"
-  ELSE LET j == JudgeForm(r.xs, r.form, r.par, r.tol, r.n, r.failable, r.credit) IN
+  IF ~(\A i \in 1..r.n : DefinedAns(r.ans, r.form, r.xs[i], r.par[i])) THEN "bad-undefined"
+  ELSE LET j == JudgeAns(r.ans, r.xs, r.form, r.par, r.tol, r.n, r.failable, r.credit) IN
        IF ~j.robust THEN "skip-near"
        ELSE IF j.edges /\ ~r.exact THEN "skip-edge-inexact"
        ELSE IF r.obs \in j.allowed THEN "ok"
